@@ -1,4 +1,164 @@
-import YncaVerif.Lemmas.L4Defs
+import YncaVerif.Lemmas.L4Basic
 /-! Helper lemmas for C08. -/
 namespace Ynca.L4
+
+theorem spaced_mono (d d' : Nat) (h : d ≤ d') (l : List Nat) : Spaced d' l → Spaced d l := by
+  induction l with
+  | nil => intro _; trivial
+  | cons a r ih =>
+    cases r with
+    | nil => intro _; trivial
+    | cons b r =>
+      intro hs
+      simp only [Spaced] at hs ⊢
+      exact ⟨by omega, ih hs.2⟩
+
+/-- every "last" element of `w` is at least `d` before `b` -/
+def lastOK (d : Nat) (w : List Nat) (b : Nat) : Prop := ∀ t, w.getLast? = some t → t + d ≤ b
+
+theorem lastOK_mono {d : Nat} {w : List Nat} {b b' : Nat} (h : lastOK d w b) (hb : b ≤ b') : lastOK d w b' :=
+  fun t ht => Nat.le_trans (h t ht) hb
+
+theorem lastOK_nil (d b : Nat) : lastOK d [] b := by intro t ht; simp at ht
+
+theorem spaced_append (d : Nat) (l : List Nat) (x : Nat) (hs : Spaced d l) (hl : lastOK d l x) :
+    Spaced d (l ++ [x]) := by
+  induction l with
+  | nil => trivial
+  | cons a r ih =>
+    cases r with
+    | nil =>
+      simp only [List.cons_append, List.nil_append, Spaced, and_true]
+      exact hl a (by simp)
+    | cons b r =>
+      simp only [Spaced, List.cons_append] at hs ⊢
+      refine ⟨hs.1, ih hs.2 ?_⟩
+      intro t ht
+      exact hl t (by simpa [List.getLast?_cons_cons] using ht)
+
+/-- per-pc relation between the last write time and the clock -/
+def spcBound (P : Params) (s : St) : Prop :=
+  match s.spc with
+  | .waitGet _ => lastOK P.spacing (wireTimes s) s.now
+  | .timedOut => lastOK P.spacing (wireTimes s) s.now
+  | .got _ => lastOK P.spacing (wireTimes s) s.now
+  | .logging _ _ => lastOK P.spacing (wireTimes s) s.now
+  | .lockWait _ _ => lastOK P.spacing (wireTimes s) s.now
+  | .writing _ _ => lastOK P.spacing (wireTimes s) s.now
+  | .sleeping u => lastOK P.spacing (wireTimes s) u
+  | _ => True
+
+def Inv8 (P : Params) (s : St) : Prop :=
+  Spaced P.spacing (wireTimes s) ∧ (∀ t ∈ wireTimes s, t ≤ s.now) ∧ spcBound P s
+
+theorem Inv8.congr {P : Params} {s s' : St} (hi : Inv8 P s) (hw : s'.wire = s.wire) (hn : s'.now = s.now)
+    (hp : s'.spc = s.spc) : Inv8 P s' := by
+  unfold Inv8 spcBound wireTimes at *
+  rw [hw, hn, hp]; exact hi
+
+theorem inv8_step (P : Params) (s s' : St) (l : Label) (o : Option Obs) (hr : Reachable P s) (hi : Inv8 P s)
+    (hs : step P s l = some (s', o)) : Inv8 P s' := by
+  have ⟨h1, h2, h3⟩ := hi
+  cases step_kind P s s' l o hs with
+  | tick d h =>
+    subst h
+    refine ⟨h1, fun t ht => Nat.le_trans (h2 t ht) (Nat.le_add_right _ _), ?_⟩
+    simp only [spcBound] at h3 ⊢
+    split at h3 <;> rename_i hp <;> simp only [hp] <;> first
+      | exact lastOK_mono h3 (Nat.le_add_right _ _)
+      | exact h3
+      | (split <;> simp_all)
+  | sender o h =>
+    cases stepS_kind P s s' o h with
+    | get dl m q hp hq h _ => subst h; simp only [spcBound, hp] at h3; exact ⟨h1, h2, h3⟩
+    | timeout dl hp hq hd h _ => subst h; simp only [spcBound, hp] at h3; exact ⟨h1, h2, h3⟩
+    | putKA hp h _ => subst h; simp only [spcBound, hp] at h3; exact ⟨h1, h2, h3⟩
+    | exit hp h _ => subst h; exact ⟨h1, h2, trivial⟩
+    | flag hp h _ => subst h; simp only [spcBound, hp] at h3; exact ⟨h1, h2, h3⟩
+    | classify i t hp h _ => subst h; simp only [spcBound, hp] at h3; exact ⟨h1, h2, h3⟩
+    | log t i hp h _ => subst h; simp only [spcBound, hp] at h3; exact ⟨h1, h2, h3⟩
+    | lock t i hp h _ => subst h; simp only [spcBound, hp] at h3; exact ⟨h1, h2, h3⟩
+    | die t i hp h _ => subst h; exact ⟨h1, h2, trivial⟩
+    | write t i hp h _ =>
+      subst h
+      simp only [spcBound, hp] at h3
+      refine ⟨?_, ?_, trivial⟩
+      · simp only [wireTimes, List.map_append, List.map_cons, List.map_nil]
+        exact spaced_append _ _ _ h1 h3
+      · simp only [wireTimes, List.map_append, List.map_cons, List.map_nil, List.mem_append,
+          List.mem_singleton]
+        rintro t (ht | rfl)
+        · exact h2 t ht
+        · exact Nat.le_refl _
+    | unlock hp h _ =>
+      subst h
+      refine ⟨h1, h2, ?_⟩
+      simp only [spcBound]
+      intro t ht
+      have := h2 t (List.mem_of_getLast? ht)
+      show t + P.spacing ≤ s.now + P.spacing
+      omega
+    | wake u hp hu h _ =>
+      subst h
+      refine ⟨h1, h2, ?_⟩
+      simp only [spcBound, hp] at h3
+      exact lastOK_mono h3 hu
+  | submit t text hq h => subst h; exact hi.congr (by simp) (by simp) (by simp)
+  | made0 hr0 h =>
+    subst h
+    have he := earlyInv P s hr (.inr hr0)
+    refine ⟨h1, h2, ?_⟩
+    simp only [spcBound, wireTimes, he.2.2.2.2.1]
+    exact lastOK_nil _ _
+  | enq it r' _ _ _ h => subst h; exact hi
+  | drain x q _ _ h => subst h; exact hi
+  | split l rest _ h => subst h; exact hi
+  | logRecv l _ h => subst h; exact hi
+  | env hc hre => exact hi.congr hc.wire hc.now hc.spc
+
+theorem inv8 (P : Params) (s : St) (h : Reachable P s) : Inv8 P s :=
+  reachable_induction' P (Inv8 P) (by simp [Inv8, wireTimes, spcBound, Spaced]) (inv8_step P) s h
+
+theorem spacing_inv (P : Params) (s : St) (h : Reachable P s) : Spaced P.spacing (wireTimes s) :=
+  (inv8 P s h).1
+
+theorem wire_times_le_now (P : Params) (s : St) (h : Reachable P s) : ∀ t ∈ wireTimes s, t ≤ s.now :=
+  (inv8 P s h).2.1
+
+theorem stepClose_no_write (P : Params) (s s' : St) (t : Tid) (pc : CPc) (x : String) :
+    stepClose P s t pc ≠ some (s', some (.write x)) := by
+  intro h
+  cases pc <;> simp only [stepClose] at h
+  all_goals (repeat' split at h)
+  all_goals simp at h
+
+theorem stepU_no_write (P : Params) (s s' : St) (t : Tid) (x : String) :
+    stepU P s t ≠ some (s', some (.write x)) := by
+  intro h
+  unfold stepU at h
+  split at h
+  · simp at h
+  · split at h <;> simp at h
+  · simp at h
+  · exact stepClose_no_write P s s' t _ x h
+
+theorem stepR_no_write (P : Params) (s s' : St) (x : String) :
+    stepR P s ≠ some (s', some (.write x)) := by
+  intro h
+  unfold stepR at h
+  repeat' split at h
+  all_goals simp at h
+
+theorem write_only_by_sender (P : Params) (s s' : St) (l : Label) (t : String)
+    (h : step P s l = some (s', some (.write t))) : l = .s := by
+  cases l
+  case s => rfl
+  case u tid => exact absurd h (stepU_no_write P s s' tid t)
+  case r => exact absurd h (stepR_no_write P s s' t)
+  all_goals
+    exfalso
+    simp only [step] at h
+    repeat' split at h
+    all_goals simp at h
+
 end Ynca.L4
